@@ -292,12 +292,23 @@ func init() {
 		return &TupleVal{E: []Value{x.str(h), x.str(p), ev}}
 	})
 	RegisterIntrinsic("time.Now", func(x *Exec, s *State, c *CallCtx) Value {
-		// a fresh, unconstrained instant: wall=0 (no monotonic reading), ext = symbolic seconds, loc=nil
+		// wall=0 (no monotonic reading), ext = seconds since year 1, loc=nil. The instant is a fixed
+		// constant unless the harness asked for a symbolic clock (zzvrf.SymbolicClock), in which
+		// case every reading is a fresh non-decreasing symbolic instant.
 		t := x.zero(c.RT).(*StructVal)
 		n := &StructVal{F: append([]Value(nil), t.F...)}
-		n.F[1] = x.clockRead()
+		if x.SymClock {
+			n.F[1] = x.clockRead()
+		} else {
+			n.F[1] = x.tb.Int64(62135596800 + 1700000000)
+		}
 		return n
 	})
+	RegisterIntrinsic(VrfPkg+".SymbolicClock", func(x *Exec, s *State, c *CallCtx) Value {
+		x.SymClock = true
+		return nil
+	})
+	RegisterIntrinsic("os.Getpid", func(x *Exec, s *State, c *CallCtx) Value { return x.tb.Int64(4242) })
 	RegisterIntrinsic("time.Sleep", func(x *Exec, s *State, c *CallCtx) Value { return nil })
 }
 
